@@ -371,5 +371,8 @@ func (m *runtimeContextManager) TerminateContext(format string, args ...interfac
 
 // Current unix time in ms
 func now() uint64 {
+	if v, ok := verifNow(); ok {
+		return v
+	}
 	return uint64(time.Now().UnixNano() / 1e6)
 }
